@@ -171,7 +171,7 @@ func (m *mapOrder) judgeLoop(fd *ast.FuncDecl, fname string, info *types.Info, r
 		}
 	}
 	effs := m.effectsOfRegion(info, fd, rs.Body, rs.Body.Pos(), rs.Body.End(), 0)
-	m.conclude(fd, fname, info, desc, rs.Pos(), rs.End(), keyObj, effs, reach)
+	m.conclude(fd, fname, info, desc, rs.Pos(), rs.End(), keyAliases(info, rs.Body, keyObj), effs, reach)
 }
 
 func (m *mapOrder) judgeSyncRange(fd *ast.FuncDecl, fname string, info *types.Info, call *ast.CallExpr, fl *ast.FuncLit, reach map[string]bool) {
@@ -193,7 +193,7 @@ func (m *mapOrder) judgeSyncRange(fd *ast.FuncDecl, fname string, info *types.In
 		}
 		return true
 	})
-	m.conclude(fd, fname, info, desc, call.Pos(), call.End(), keyObj, effs, reach)
+	m.conclude(fd, fname, info, desc, call.Pos(), call.End(), keyAliases(info, fl.Body, keyObj), effs, reach)
 }
 
 func exprTypeField(info *types.Info, call *ast.CallExpr) string {
@@ -211,11 +211,43 @@ func exprTypeField(info *types.Info, call *ast.CallExpr) string {
 	return "sync.Map"
 }
 
-func (m *mapOrder) conclude(fd *ast.FuncDecl, fname string, info *types.Info, desc string, pos, end token.Pos, keyObj types.Object, effs []mEffect, reach map[string]bool) {
+// keyAliases: the loop key and every variable defined in the body as an injective view of it
+// (type assertion or conversion: `uri := key.(T)`, `uri, ok := key.(T)`, `u := T(key)`).
+func keyAliases(info *types.Info, body ast.Node, keyObj types.Object) map[types.Object]bool {
+	al := map[types.Object]bool{}
+	if keyObj == nil {
+		return al
+	}
+	al[keyObj] = true
+	ast.Inspect(body, func(n ast.Node) bool {
+		as, ok := n.(*ast.AssignStmt)
+		if !ok || as.Tok != token.DEFINE || len(as.Rhs) != 1 || len(as.Lhs) == 0 {
+			return true
+		}
+		var src ast.Expr
+		switch r := ast.Unparen(as.Rhs[0]).(type) {
+		case *ast.TypeAssertExpr:
+			src = r.X
+		case *ast.CallExpr:
+			if tv, ok := info.Types[r.Fun]; ok && tv.IsType() && len(r.Args) == 1 {
+				src = r.Args[0]
+			}
+		}
+		if id, ok := ast.Unparen(src).(*ast.Ident); ok && src != nil && al[info.Uses[id]] {
+			if l, ok := as.Lhs[0].(*ast.Ident); ok && info.Defs[l] != nil {
+				al[info.Defs[l]] = true
+			}
+		}
+		return true
+	})
+	return al
+}
+
+func (m *mapOrder) conclude(fd *ast.FuncDecl, fname string, info *types.Info, desc string, pos, end token.Pos, keys map[types.Object]bool, effs []mEffect, reach map[string]bool) {
 	var sensitive []mEffect
 	for _, e := range effs {
 		// store/append at m[key] where key is this loop's key: distinct iterations touch distinct slots
-		if e.Indexed && e.IndexObj != nil && keyObj != nil && e.IndexObj == keyObj && (e.Kind == effAppend || e.Kind == effOverwrite) {
+		if e.Indexed && e.IndexObj != nil && keys[e.IndexObj] && (e.Kind == effAppend || e.Kind == effOverwrite) {
 			continue
 		}
 		// append to a function-local slice that is totally sorted before any other use
